@@ -6,31 +6,60 @@ import math
 import numpy as np
 import z3
 
-from symx.core import (PI_F, TWOPI_F, SBool, SInt, SReal, assume, explore, identify_lemma, integer, mfloat, mval, real, reals, resume, rv, slice_for)
+import symx.ext_c16 as X
+from symx.core import (PI_F, TWOPI_F, SReal, assume, eq_arrays, explore, free_vars, identify_lemma, integer, marray, mfloat, mval, real,
+                       reals, refute, resume, rv, slice_for, trig)
 from symx.runner import Ob
 
 ID = "C16"
-TECHNIQUE = ("symbolic execution of the real wrapping / residual / circular-mean helpers and of the real UKF measurement update on z3 "
-             "proxies (mixed integer/real arithmetic: turn counts are solver integers); unsat = identity holds for every angle and turn count")
+TECHNIQUE = ("symbolic execution of the real wrapping / residual / circular-mean helpers and of the real UnscentedKalmanFilter predict/forecast/update "
+             "(calculateMeasurementMatrix, calcMeasurementMean, _calcMeasurementSigmaPoints) on z3 proxies: angles are solver reals, turn counts solver "
+             "integers, the measurement function an uninterpreted angle field, wrap-point offsets solver reals; the filter is run on a configuration and on "
+             "the same configuration in another representation / observation order and z3 decides equality of innovation, est_x, est_p "
+             "(unsat = holds for every angle, turn count, offset, prior and noise within the bounds)")
 FLOAT_SEMANTICS = "Real-ideal: pi is the code's double constant; fmod/remainder are exact truncated/floored remainders"
 ENCODED = [
     "resonaate.physics.maths:wrapAngle2Pi", "resonaate.physics.maths:wrapAngleNegPiPi", "resonaate.physics.maths:residual",
     "resonaate.physics.maths:residuals", "resonaate.physics.maths:vecWrapAngleNeg", "resonaate.physics.maths:vecWrapAngle2Pi",
     "resonaate.physics.maths:vecResiduals", "resonaate.physics.maths:angularMean",
+    "resonaate.estimation.kalman.unscented_kalman_filter:UnscentedKalmanFilter.__init__",
+    "resonaate.estimation.kalman.unscented_kalman_filter:UnscentedKalmanFilter.generateSigmaPoints",
+    "resonaate.estimation.kalman.unscented_kalman_filter:UnscentedKalmanFilter.predict",
+    "resonaate.estimation.kalman.unscented_kalman_filter:UnscentedKalmanFilter._calcMeasurementSigmaPoints",
     "resonaate.estimation.kalman.unscented_kalman_filter:UnscentedKalmanFilter.calcMeasurementMean",
     "resonaate.estimation.kalman.unscented_kalman_filter:UnscentedKalmanFilter.calculateMeasurementMatrix",
     "resonaate.estimation.kalman.unscented_kalman_filter:UnscentedKalmanFilter.forecast",
     "resonaate.estimation.kalman.unscented_kalman_filter:UnscentedKalmanFilter.update",
 ]
-BOUNDS = {"angles": "any real in [-1e7, 1e7] incl. exact multiples of pi", "turns": "|k| <= 1e6", "angularMean": "2-3 angles, arbitrary (also negative) weights with non-degenerate resultant",
-          "UKF": "state dim 1-2, 3-5 sigma points, one angular + optional linear component, 1-2 stacked observations"}
-OUTSIDE = ["double rounding in fmod/remainder (an angle within 1 ulp of the seam)", "state dimensions above 2"]
+BOUNDS = {"angles": "helpers: any real in [-1e7, 1e7] incl. exact multiples of pi; UKF obligations: sigma-point angles, measured angles and wrap-point offsets c any real in [-100, 100]",
+          "turns": "|k| <= 1e6, one independent turn count per sigma-point angle and per measured angle",
+          "angularMean": "2-3 angles, arbitrary (also negative) weights with non-degenerate resultant",
+          "UKF": "state dimension 1-2 (3-5 sigma points), symbolic prior x, P = L L^T, F, Q, noise R = Lr Lr^T (correlated within an observation); tunings (alpha,beta,kappa) = (1,2,2) "
+                 "[positive weights] and (0.5,2,1) [negative centre weight]; with and without sigma-point redraw; O5: one observation of 1-2 components (angle valid in [0,2pi) / angle "
+                 "valid in [-pi,pi) / linear row / arbitrary non-angular function), the angular measurement function is arbitrary (one free angle per sigma point; in the *-const cases "
+                 "one common angle for all sigma points); O6: two (thorough: three, state dimension 1) stacked single-component observations, the listed permutations"}
+OUTSIDE = ["double rounding in fmod/remainder (an angle within 1 ulp of the seam) and in the filter algebra ('up to rounding' in the property is not quantified)",
+           "state dimensions above 2; more than three stacked observations (property text: up to four), three stacked observations for state dimension 2 (the 3x3 adjugate identity for est_p did not decide within 25 min); symbolic tuning constants in the update obligations",
+           "degenerate weighted resultant sum_j w_j (cos, sin)(theta_j) = 0 (numpy's arctan2(0, 0) = 0 carries no direction; possible with a negative centre weight)",
+           "singular innovation covariance", "genetic_particle_filter (anchor file; uses the same helpers, not executed)",
+           "that the rotated configuration's measured angle is congruent to y + c is an input relation, not derived from a sensor model"]
 ASSUMPTIONS = ["numpy.fmod = truncated remainder, numpy.remainder / % = floored remainder (contract: r = a - m*k, range by sign rule)",
                "arctan2 modelled by its (cos,sin) pair, range (-pi,pi] and quadrant facts; equal (cos,sin) => equal angle mod 2pi (instantiated per pair)",
-               "pi identified with const.PI"]
-LEVEL_TEXT = ("Bounded symbolic verification of the angle helpers and of the UKF update's angle handling: every wrap/residual identity is an SMT "
-              "query over real angles and integer turn counts; seam values are ordinary points of the domain, so they are covered, which no sampled test does.")
-LEVEL_NOTE = "Real arithmetic (no rounding); contracts for fmod/remainder/arctan2; UKF obligations for small dimensions with duck-typed linear measurement models."
+               "pi identified with const.PI",
+               "UKF obligations: arctan2 -> symx.ext_c16.Atan2Cut (fresh angle in (-pi,pi] + fresh unit vector constrained to be the positive direction of (x, y); pure; "
+               "atan2(r sin u, r cos u) = u mod 2pi for a single known angle u); its polynomial facts are handed to the solver only in the ring-identity stages",
+               "UKF obligations: maths.residual -> its contract (ResidualCut: angular -> r in (-pi,pi], r = a - b - 2 pi n; else a - b); the contract is what O2 proves of the real residual()",
+               "UKF obligations: inv -> adjugate formula (m <= 3, exact), cholesky(M) -> the factor M was built from after the solver proved M = L L^T, zeros/ones/full/array -> object arrays",
+               "UKF obligations: dynamics.propagate = F X (duck-typed), measurement = arbitrary angle per sigma point (uninterpreted function realised as a memo on the state terms) or linear row",
+               "staged proofs: (1) ring identities about the weighted resultant, (2) an abstract 6-variable lemma on unit vectors, (3) linear mixed integer/real reasoning on angles using the "
+               "congruence obtained from (1)+(2) and the trusted fact 'equal (cos,sin) => equal mod 2pi', (4) equality of est_x / est_p from the equalities proved in (3); every stage is a solver query",
+               "branch feasibility during path exploration of the UKF runs is decided on the linear constraints only (over-approximation: no feasible path is lost)",
+               "integer hints N := k - ident - n_B + n_A are definitional extensions (fresh integer defined by an equation)"]
+LEVEL_TEXT = ("Bounded symbolic verification of the angle helpers and of the UKF measurement update's angle handling: every wrap/residual/circular-mean identity and every "
+              "representation/seam/order invariance of the update is an SMT query over real angles, integer turn counts, real wrap-point offsets and a symbolic prior; seam values "
+              "and seam-straddling sigma-point sets are ordinary points of the domain, so they are covered, which no sampled test does.")
+LEVEL_NOTE = ("Real arithmetic (no rounding); contracts for fmod/remainder/arctan2/residual/inv/cholesky; small state dimensions; arbitrary (uninterpreted) angular measurement function "
+              "and duck-typed linear dynamics; composition of staged solver proofs.")
 
 PI, TWOPI = rv(PI_F), rv(TWOPI_F)
 BIG = 10 ** 7
@@ -321,7 +350,866 @@ def o4b_mean_wrappoint(rep, n=2):
         rep.error("reach", "no non-degenerate path")
 
 
+# =======================================================================================
+# UKF measurement update with angular components (O5, O6)
+# =======================================================================================
+ABND = 100  # |angle| bound of the UKF obligations (about 16 turns either side)
+KBND = 10 ** 6
+TUNINGS = {"pos": (1.0, 2.0, 2.0),  # all sigma weights positive
+           "neg": (0.5, 2.0, 1.0)}  # negative centre weight (n=1: w0 = -1; n=2: w0 = -5/3)
+
+
+class LinDyn:
+    def __init__(self, F):
+        self.F = F
+
+    def propagate(self, t0, t1, X, scheduled_events=None):
+        return self.F.dot(X)
+
+
+class MixMeas:
+    """duck-typed measurement: components are angle fields (any function of the state, see AngleField) or linear rows"""
+
+    def __init__(self, comps):
+        self.comps = comps  # list of (kind, callable(state) -> value)
+        self.angular_values = [_isangle(k) for k, _f in comps]
+
+    def calculateMeasurement(self, sen, tgt, utc, noisy=False):
+        return {f"m{i}": f(tgt) for i, (_k, f) in enumerate(self.comps)}
+
+
+class UObs:
+    julian_date = 2459000.5
+    sensor_eci = np.zeros(6)
+
+    def __init__(self, comps, R, y):
+        self.measurement = MixMeas(comps)
+        self.r_matrix = R
+        self.measurement_states = y
+
+
+def _isangle(kind):
+    from resonaate.physics.measurements import IsAngle
+
+    return {"a0": IsAngle.ANGLE_0_2PI, "ap": IsAngle.ANGLE_NEG_PI_PI, "lin": IsAngle.NOT_ANGLE, "val": IsAngle.NOT_ANGLE}[kind]
+
+
+def _ang(kind):
+    """component kinds: a0 = angle valid in [0, 2pi), ap = angle valid in [-pi, pi), lin = linear row h.x, val = arbitrary non-angular function of the state"""
+    return kind in ("a0", "ap")
+
+
+def _lowhigh(kind):
+    return (0.0, 2 * math.pi) if kind == "a0" else (-math.pi, math.pi)
+
+
+def _lower(prefix, n):
+    L = np.empty((n, n), dtype=object)
+    for i in range(n):
+        for j in range(n):
+            L[i, j] = real(f"{prefix}_{i}_{j}") if j <= i else SReal(0)
+        assume(L[i, i].t > 0)
+    return L
+
+
+class UEnv:
+    """stubs for the duration of a symbolic UKF run (module-global shadowing; generateSigmaPoints' default sqrt_func)"""
+
+    def __init__(self, sc):
+        from resonaate.estimation.kalman import unscented_kalman_filter as U
+        from resonaate.physics import maths as M
+        from resonaate.physics import statistics as ST
+        from symx.stubs import shadow, sym_array, sym_full, sym_ones, sym_zeros
+
+        self.sc = sc
+        self.ctx = [shadow(U, cholesky=sc.chol, inv=X.inv_explicit, zeros=sym_zeros, ones=sym_ones, full=sym_full, array=sym_array),
+                    shadow(ST, inv=X.inv_explicit), shadow(M, arctan2=sc.at, residual=sc.rc)]
+
+    def __enter__(self):
+        from resonaate.estimation.kalman.unscented_kalman_filter import UnscentedKalmanFilter as K
+
+        self.fn = K.generateSigmaPoints
+        self.old = self.fn.__defaults__
+        self.fn.__defaults__ = (self.sc.chol,)
+        for c in self.ctx:
+            c.__enter__()
+
+    def __exit__(self, *a):
+        self.fn.__defaults__ = self.old
+        for c in reversed(self.ctx):
+            c.__exit__(*a)
+
+
+class Scene:
+    """symbolic prior (x, P = L L^T, F, Q), tuning, and a list of observations; built inside the explored function"""
+
+    def __init__(self, cfg):
+        self.cfg = cfg
+        n = self.n = cfg["n"]
+        self.chol, self.at, self.rc = X.MemoChol(), X.Atan2Cut(), X.ResidualCut()
+        self.x, self.L, self.F = reals("x", n), _lower("L", n), reals("F", n, n)
+        self.P = self.L.dot(self.L.T)
+        self.chol.register(self.L)
+        if cfg["resample"]:
+            # Q := L' L'^T - F P F^T so that cholesky(pred_p) is the free factor L' (no polynomial side equations)
+            self.Lp = _lower("Lp", n)
+            self.chol.register(self.Lp)
+            self.Q = self.Lp.dot(self.Lp.T) - self.F.dot(self.P).dot(self.F.T)
+        else:
+            self.Lp = None
+            self.Q = np.empty((n, n), dtype=object)
+            for i in range(n):
+                for j in range(i + 1):
+                    self.Q[i, j] = self.Q[j, i] = real(f"Q_{i}_{j}")
+        self.obs = []  # per observation: dict
+        for i, kinds in enumerate(cfg["obs"]):
+            m = len(kinds)
+            o = {"kinds": kinds, "fields": [], "h": [], "y": reals(f"y{i}", m), "Lr": _lower(f"Lr{i}", m), "c": [], "ky": [], "k": []}
+            for j, kind in enumerate(kinds):
+                assume(o["y"][j].t >= -ABND, o["y"][j].t <= ABND)
+                if kind == "lin":
+                    o["fields"].append(None)
+                    o["h"].append(reals(f"h{i}{j}", n))
+                    o["c"].append(None)
+                    o["ky"].append(None)
+                elif kind == "val":
+                    o["fields"].append(X.AngleField(f"v{i}{j}", -ABND, ABND))
+                    o["h"].append(None)
+                    o["c"].append(None)
+                    o["ky"].append(None)
+                else:
+                    o["fields"].append(X.AngleField(f"th{i}{j}", -ABND, ABND, const=bool(cfg.get("const"))))
+                    o["h"].append(None)
+                    c = real(f"c{i}{j}")
+                    ky = integer(f"ky{i}{j}")
+                    assume(c.t >= -ABND, c.t <= ABND, ky.t >= -KBND, ky.t <= KBND)
+                    o["c"].append(c)
+                    o["ky"].append(ky)
+                o["k"].append({})
+            o["R"] = o["Lr"].dot(o["Lr"].T)
+            self.obs.append(o)
+
+    def new_filter(self):
+        from resonaate.estimation.kalman import unscented_kalman_filter as U
+
+        a, b, k = TUNINGS[self.cfg["tun"]]
+        return U.UnscentedKalmanFilter(1, 0.0, self.x, self.P, LinDyn(self.F), self.Q, None, False, False, resample=self.cfg["resample"],
+                                       alpha=SReal(a), beta=SReal(b), kappa=SReal(k))
+
+    # ---- observations ----------------------------------------------------------------------
+    def _kvar(self, i, j, idx):
+        d = self.obs[i]["k"][j]
+        if idx not in d:
+            k = integer(f"k{i}{j}_{idx}")
+            assume(k.t >= -KBND, k.t <= KBND)
+            d[idx] = k
+        return d[idx]
+
+    def observation(self, i, shifted=False, rotate=True):
+        """observation i as the filter sees it; shifted: every angular value (sigma-point predictions and the measured
+        value) is reported rotated by c (if rotate) plus a solver-chosen whole number of turns per value"""
+        o = self.obs[i]
+        comps, y = [], []
+        for j, kind in enumerate(o["kinds"]):
+            if kind == "lin":
+                comps.append((kind, (lambda h: lambda s: h.dot(s))(o["h"][j])))
+                y.append(o["y"][j])
+            elif not shifted or kind == "val":
+                comps.append((kind, o["fields"][j]))
+                y.append(o["y"][j])
+            else:
+                def f(s, i=i, j=j, fld=o["fields"][j], c=o["c"][j]):
+                    v = fld(s)
+                    k = self._kvar(i, j, fld.index_of(s))
+                    return (v + c if rotate else v) + TWOPI_F * k
+
+                comps.append((kind, f))
+                y.append((o["y"][j] + o["c"][j] if rotate else o["y"][j]) + TWOPI_F * o["ky"][j])
+        return UObs(comps, o["R"], np.array(y, dtype=object))
+
+    def rows(self, order=None):
+        """stacked rows (obs index, comp index, kind) in the order the filter stacks them"""
+        order = range(len(self.obs)) if order is None else order
+        return [(i, j, k) for i in order for j, k in enumerate(self.obs[i]["kinds"])]
+
+    def columns(self, f, i, j):
+        """per sigma column: (angle variable of field (i, j), turn variable of the shifted run or None)"""
+        fld = self.obs[i]["fields"][j]
+        out = []
+        for col in range(f.sigma_points.shape[1]):
+            s = f.sigma_points[:, col]
+            v = fld(s)
+            out.append((v, self.obs[i]["k"][j].get(fld.index_of(s))))
+        return out
+
+    # ---- partial concretisation for counterexample search ----------------------------------------
+    def pins(self, f=None, angles=False):
+        """generic rational values for the variables that angle-level goals do not depend on (prior, dynamics, noise factors,
+        linear rows); angles=True also pins the sigma-point angles of filter f to a generic spread (used where the solver's
+        verdict is about (cos, sin) atoms only and therefore says nothing about the angle values)"""
+        n = self.n
+        out = []
+
+        def pin(v, val):
+            if isinstance(v, SReal) and z3.is_const(v.t) and v.t.decl().kind() == z3.Z3_OP_UNINTERPRETED:
+                out.append(v.t == rv(val))
+
+        for i in range(n):
+            pin(self.x[i], 1 + i)
+            for j in range(n):
+                pin(self.L[i, j], 1 + 0.25 * i if i == j else 0.5)
+                pin(self.F[i, j], (1.0 if i == j else 0.0) + 0.125 * (i + 2 * j + 1))
+                if self.Lp is not None:
+                    pin(self.Lp[i, j], 2 + 0.25 * i if i == j else 0.5)
+                else:
+                    pin(self.Q[i, j], 0.5 + 0.125 * i if i == j else 0.0625)
+        for oi, o in enumerate(self.obs):
+            m = len(o["kinds"])
+            for i in range(m):
+                for j in range(m):
+                    pin(o["Lr"][i, j], 1 + 0.25 * (i + oi) if i == j else 0.5)
+                if o["h"][i] is not None:
+                    for j in range(n):
+                        pin(o["h"][i][j], [1.0, -2.0, 0.5][j % 3])
+                if angles and f is not None and o["fields"][i] is not None:
+                    for col, (v, _k) in enumerate(self.columns(f, oi, i)):
+                        pin(v, 0.3 + 1.1 * col + 0.37 * i + 0.11 * oi)
+        return out
+
+    # ---- model -> concrete inputs ------------------------------------------------------------
+    def inputs(self, m, f, extra=None):
+        d = {"cfg": self.cfg, "x": marray(m, self.x), "L": marray(m, self.L), "F": marray(m, self.F), "Q": marray(m, self.Q), "obs": []}
+        for i, o in enumerate(self.obs):
+            e = {"kinds": o["kinds"], "y": marray(m, o["y"]), "Lr": marray(m, o["Lr"]), "th": [], "k": [], "h": [], "c": [], "ky": []}
+            for j, kind in enumerate(o["kinds"]):
+                if kind == "lin":
+                    e["h"].append(marray(m, o["h"][j]))
+                    e["th"].append(None), e["k"].append(None), e["c"].append(None), e["ky"].append(None)
+                else:
+                    cols = self.columns(f, i, j)
+                    e["h"].append(None)
+                    e["th"].append([mfloat(m, v.t) for v, _k in cols])
+                    e["k"].append([int(mval(m, k.t)) if k is not None else 0 for _v, k in cols])
+                    e["c"].append(mfloat(m, o["c"][j].t) if _ang(kind) else 0.0)
+                    e["ky"].append(int(mval(m, o["ky"][j].t)) if _ang(kind) else 0)
+            d["obs"].append(e)
+        if extra:
+            d.update(extra)
+        return d
+
+
+# ---- concrete replay machinery ---------------------------------------------------------------
+class _CField:
+    """concrete angle field: the angle of the sigma column nearest to the queried state"""
+
+    def __init__(self, holder, th, k, c, rotate):
+        self.holder, self.th, self.k, self.c, self.rotate = holder, th, k, c, rotate
+
+    def __call__(self, s):
+        cols = self.holder["f"].sigma_points
+        j = int(np.argmin(np.abs(cols - np.asarray(s, dtype=float).reshape(-1, 1)).sum(axis=0)))
+        v = self.th[j]
+        if self.k is not None:
+            v = v + (self.c if self.rotate else 0.0) + 2 * math.pi * self.k[j]
+        return v
+
+
+def _concrete_filter(d):
+    from resonaate.estimation.kalman.unscented_kalman_filter import UnscentedKalmanFilter
+
+    cfg = d["cfg"]
+    a, b, k = TUNINGS[cfg["tun"]]
+    x, L, F, Q = np.array(d["x"], dtype=float), np.array(d["L"], dtype=float), np.array(d["F"], dtype=float), np.array(d["Q"], dtype=float)
+    f = UnscentedKalmanFilter(1, 0.0, x, L @ L.T, LinDyn(F), Q, None, False, False, resample=cfg["resample"], alpha=a, beta=b, kappa=k)
+    f.predict(60.0)
+    return f
+
+
+def _concrete_obs(d, i, holder, shifted=False, rotate=True):
+    e = d["obs"][i]
+    comps, y = [], []
+    for j, kind in enumerate(e["kinds"]):
+        if kind == "lin":
+            comps.append((kind, (lambda h: lambda s: float(np.dot(h, s)))(np.array(e["h"][j], dtype=float))))
+            y.append(e["y"][j])
+        elif kind == "val":
+            comps.append((kind, _CField(holder, e["th"][j], None, 0.0, rotate)))
+            y.append(e["y"][j])
+        else:
+            comps.append((kind, _CField(holder, e["th"][j], e["k"][j] if shifted else None, e["c"][j], rotate)))
+            y.append(e["y"][j] + (((e["c"][j] if rotate else 0.0) + 2 * math.pi * e["ky"][j]) if shifted else 0.0))
+    Lr = np.array(e["Lr"], dtype=float)
+    return UObs(comps, Lr @ Lr.T, np.array(y, dtype=float))
+
+
+def _concrete_update(d, order, shifted=False, rotate=True):
+    holder = {}
+    f = holder["f"] = _concrete_filter(d)
+    f.update([_concrete_obs(d, i, holder, shifted, rotate) for i in order])
+    return f
+
+
+def _angdiff(a, b):
+    dd = abs(a - b) % (2 * math.pi)
+    return min(dd, 2 * math.pi - dd)
+
+
+def _cmp_posterior(fa, fb, perm=None, tol=1e-6):
+    """max scaled differences of innovation / est_x / est_p of two concrete filters (perm: row permutation of b wrt a)"""
+    ia, ib = np.asarray(fa.innovation, dtype=float), np.asarray(fb.innovation, dtype=float)
+    if perm is not None:
+        ib = ib[perm]
+    sc = max(1.0, np.abs(fa.est_x).max(), np.abs(fa.est_p).max(), np.abs(ia).max())
+    errs = {"innovation": float(np.abs(ia - ib).max()), "est_x": float(np.abs(fa.est_x - fb.est_x).max()), "est_p": float(np.abs(fa.est_p - fb.est_p).max())}
+    return max(errs.values()) > tol * sc, errs
+
+
+def replay_shift(d):
+    """real filter, floats: the configuration and the same configuration reported rotated / with other turn counts"""
+    rotate = d.get("rotate", True)
+    order = list(range(len(d["obs"])))
+    fa = _concrete_update(d, order)
+    fb = _concrete_update(d, order, shifted=True, rotate=rotate)
+    bad, errs = _cmp_posterior(fa, fb)
+    rows = [(i, j, k) for i in order for j, k in enumerate(d["obs"][i]["kinds"])]
+    for r, (i, j, kind) in enumerate(rows):
+        if not _ang(kind):
+            continue
+        for f in (fa, fb):
+            if not (-math.pi - 1e-12 < float(f.innovation[r]) <= math.pi + 1e-12):
+                bad = True
+                errs[f"innovation[{r}] out of (-pi,pi]"] = float(f.innovation[r])
+        cexp = d["obs"][i]["c"][j] if rotate else 0.0
+        e = _angdiff(float(fb.mean_pred_y[r]), float(fa.mean_pred_y[r]) + cexp)
+        errs[f"mean_pred_y[{r}] not rotated with the configuration"] = e
+        if e > 1e-6:
+            bad = True
+        e = float(np.abs(np.asarray(fa.sigma_y_res, dtype=float)[r] - np.asarray(fb.sigma_y_res, dtype=float)[r]).max())
+        errs[f"sigma_y_res[{r}]"] = e
+        if e > 1e-6:
+            bad = True
+    return bad, errs
+
+
+def replay_order(d):
+    perm = d["perm"]
+    n = len(d["obs"])
+    fa = _concrete_update(d, list(range(n)))
+    fb = _concrete_update(d, perm)
+    rows_a = [(i, j) for i in range(n) for j in range(len(d["obs"][i]["kinds"]))]
+    rows_b = [(i, j) for i in perm for j in range(len(d["obs"][i]["kinds"]))]
+    rp = [rows_b.index(r) for r in rows_a]
+    return _cmp_posterior(fa, fb, perm=rp)
+
+
+def replay_spec(d):
+    """real filter, floats: the published mean / residuals / innovation against their definitions"""
+    order = list(range(len(d["obs"])))
+    f = _concrete_update(d, order)
+    w = np.asarray(f.mean_weight, dtype=float)
+    bad, errs = False, {}
+    rows = [(i, j, k) for i in order for j, k in enumerate(d["obs"][i]["kinds"])]
+    y = np.concatenate([np.array(d["obs"][i]["y"], dtype=float) for i in order])
+    for r, (i, j, kind) in enumerate(rows):
+        m = float(f.mean_pred_y[r])
+        if not _ang(kind):
+            if kind == "lin":
+                vals = np.array(d["obs"][i]["h"][j], dtype=float) @ f.sigma_points
+            else:
+                vals = np.array(d["obs"][i]["th"][j], dtype=float)
+            e = abs(m - float(vals @ w))
+            e = max(e, float(np.abs(np.asarray(f.sigma_y_res, dtype=float)[r] - (vals - m)).max()), abs(float(f.innovation[r]) - (y[r] - m)))
+            errs[f"non-angular row {r}"] = e
+            bad = bad or e > 1e-6 * max(1.0, np.abs(vals).max(), abs(y[r]))
+            if bool(f.is_angular[r]):
+                bad, errs[f"is_angular[{r}]"] = True, True
+            continue
+        th = np.array(d["obs"][i]["th"][j], dtype=float)
+        C, S = float(np.cos(th) @ w), float(np.sin(th) @ w)
+        lo, hi = _lowhigh(kind)
+        if not (lo <= m < hi + 1e-12):
+            bad, errs[f"mean_pred_y[{r}] outside [low, high)"] = True, m
+        rr = math.hypot(C, S)
+        cross, dot = (math.sin(m) * C - math.cos(m) * S) / rr, (math.cos(m) * C + math.sin(m) * S) / rr
+        errs[f"mean_pred_y[{r}] direction (cross, dot)"] = [cross, dot]
+        if abs(cross) > 1e-6 or dot <= 0:
+            bad = True
+        res = np.asarray(f.sigma_y_res, dtype=float)[r]
+        for col in range(len(th)):
+            if not (-math.pi - 1e-12 < res[col] <= math.pi + 1e-12) or _angdiff(res[col], th[col] - m) > 1e-6:
+                bad, errs[f"sigma_y_res[{r},{col}]"] = True, [float(res[col]), float(th[col] - m)]
+        nu = float(f.innovation[r])
+        if not (-math.pi - 1e-12 < nu <= math.pi + 1e-12) or _angdiff(nu, y[r] - m) > 1e-6:
+            bad, errs[f"innovation[{r}]"] = True, [nu, float(y[r] - m)]
+        if not bool(f.is_angular[r]):
+            bad, errs[f"is_angular[{r}]"] = True, False
+    return bad, errs
+
+
+# ---- proof plumbing ------------------------------------------------------------------------------
+def _tag(path):
+    return "".join("T" if d else "F" for d in path.decisions) or "-"
+
+
+def _distinct_columns(f):
+    """the sigma points handed to the measurement function are pairwise different states (needed only to turn a model
+    into a concrete measurement *function* for the replay)"""
+    cols = f.sigma_points
+    out = []
+    for a in range(cols.shape[1]):
+        for b in range(a + 1, cols.shape[1]):
+            out.append(z3.Or(*[cols[i, a].t != cols[i, b].t for i in range(cols.shape[0])]))
+    return out
+
+
+def _record(rep, label, v, sample=None):
+    rep._item(label, "prove", v)
+    if sample is not None:
+        rep.sample({"obligation": f"{rep.ob}:{label}", "verdict": v.status, "what": sample})
+
+
+def _two_step(rep, label, goal, fast, full, pinned=None, fast_ms=8000, sample=None, **kw):
+    """Decide `goal` on the small (sliced) constraint set.  Only when that is not `unsat` a counterexample is searched
+    that is a model of the whole run and can be replayed: first with the variables the goal does not depend on (prior, noise
+    factors, linear rows) pinned to generic rationals - partial concretisation, the solver still chooses every angle, turn
+    count and offset -, then, if that gives nothing, with every constraint of the path and nothing pinned."""
+    v = refute(goal, fast, fast_ms)
+    if v.status == "unsat":
+        _record(rep, label, v, sample)
+        return True
+    kw.setdefault("timeout_ms", 10000)
+    if pinned is not None and refute(goal, pinned, 8000).status == "sat":
+        return rep.prove(label, goal, pinned, sample=sample, **kw)
+    return rep.prove(label, goal, full, sample=sample, **kw)
+
+
+_UNIT = None
+
+
+def _unit_lemma():
+    """abstract fact used to compare directions: two unit vectors that are positive multiples of the same vector are equal.
+    Returns (variables, hypotheses, conclusion)."""
+    u1, v1, u2, v2, Xv, Yv = z3.Reals("ul_u1 ul_v1 ul_u2 ul_v2 ul_X ul_Y")
+    hyp = [u1 * u1 + v1 * v1 == 1, u2 * u2 + v2 * v2 == 1, v1 * Xv == u1 * Yv, u1 * Xv + v1 * Yv > 0, v2 * Xv == u2 * Yv, u2 * Xv + v2 * Yv > 0]
+    return (u1, v1, u2, v2, Xv, Yv), hyp, z3.And(u1 == u2, v1 == v2)
+
+
+def _ring(goal, hyps, timeout_ms):
+    """polynomial identity under polynomial equality hypotheses: linearisation prover first, then nlsat"""
+    from symx.poly import NotPolynomial, prove_linearized_auto
+
+    try:
+        v = prove_linearized_auto([goal], hyps, rounds=6, timeout_ms=timeout_ms)
+    except NotPolynomial:
+        v = None
+    if v is None or v.status != "unsat":
+        v = refute(goal, hyps, min(timeout_ms, 20000))
+    return v
+
+
+def _call_of(at, mean_term):
+    names = free_vars(mean_term)
+    hits = [c for c in at.calls if str(c["a"]) in names]
+    return hits[0] if len(hits) == 1 else None
+
+
+def _poly_eqs(cs):
+    out = []
+    for c in cs:
+        if z3.is_and(c):
+            out += _poly_eqs(c.children())
+        elif z3.is_eq(c) and c.arg(0).sort() != z3.BoolSort() and not X.is_linear(c):
+            out.append(c)
+    return out
+
+
+def _rotation_lemma(rep, tag, ri, path, sc, mA, mB, c, lemma_ok, cex_pinned, cex_kw):
+    """Stages that establish  mean_B == mean_A + c (mod 2 pi)  for one angular row.  Returns the linear conclusion
+    (with its integer turn variable) or None."""
+    with resume(path):
+        cc, sn = trig(c.t)
+        (cb, sb), (ca, sa) = trig(mB.t), trig((mA + c).t)
+    ident = z3.Int(f"ident_{ri}")
+    prem = z3.And(cb == ca, sb == sa)
+    concl = mB.t - (mA.t + c.t) == TWOPI * z3.ToReal(ident)
+    A, B = _call_of(sc.at, mA.t), _call_of(sc.at, mB.t)
+    if A is None or B is None or A["recognised"] or B["recognised"]:
+        # no cut arctan2 behind the mean (or a single-direction one): let the solver try the premise directly
+        ok = _two_step(rep, f"mean-rotates[{tag},row{ri}]", prem, path.assumes + sc.at.side_facts(), path.constraints() + sc.at.side_facts(), pinned=cex_pinned, fast_ms=10000,
+                       timeout_ms=10000, sample="cos/sin of mean_pred_y(rotated configuration) == cos/sin of (mean_pred_y + c)", **cex_kw)
+        return (concl, ident) if ok else None
+    (l1, k1, l2, k2, lX, lY), lhyp, lconc = _unit_lemma()
+    da = X.DivAbstraction(prefix=f"q{ri}")
+    hyps = [da.rewrite(h) for h in _poly_eqs(path.assumes) + _poly_eqs(A["facts"][:2])]
+    chosen = None
+    # the code may average the angles themselves or their mirror images (low/high handling): the unit vector behind mean_A turns by
+    # +c or by -c when the configuration is rotated by c; the premise proved at the end is the same in both cases
+    for orient in (1, -1):
+        u2, v2 = A["c"] * cc - orient * A["s"] * sn, A["s"] * cc + orient * A["c"] * sn
+        sub = [(l1, B["c"]), (k1, B["s"]), (l2, u2), (k2, v2), (lX, B["x"]), (lY, B["y"])]
+        inst = [z3.substitute(h, *sub) for h in lhyp]
+        g_unit, g_par = inst[1], inst[4]
+        g_dot = u2 * B["x"] + v2 * B["y"] == A["c"] * A["x"] + A["s"] * A["y"]
+        verdicts = []
+        for g in (g_unit, g_par, g_dot):
+            v = _ring(da.rewrite(g), hyps, 60000 if orient == 1 else 20000)
+            verdicts.append(v)
+            if v.status != "unsat":
+                break
+        if all(v.status == "unsat" for v in verdicts) and len(verdicts) == 3:
+            chosen = (orient, sub, inst, g_unit, g_par, g_dot, verdicts)
+            break
+    if chosen is None:
+        ok = _two_step(rep, f"mean-rotates[{tag},row{ri}]", prem, path.assumes + sc.at.side_facts(), path.constraints() + sc.at.side_facts(), pinned=cex_pinned, fast_ms=10000,
+                       timeout_ms=10000, sample="cos/sin of mean_pred_y(rotated configuration) == cos/sin of (mean_pred_y + c)", **cex_kw)
+        return (concl, ident) if ok else None
+    orient, sub, inst, g_unit, g_par, g_dot, verdicts = chosen
+    for nm, v, what in (("unit", verdicts[0], "the rotated unit vector of mean_A is a unit vector"),
+                        ("parallel", verdicts[1], "the resultant of the rotated configuration is parallel to the rotated unit vector of mean_A"),
+                        ("dot", verdicts[2], "... and points the same way (equal inner products)")):
+        _record(rep, f"ring-{nm}[{tag},row{ri}]", v, what)
+    ok = True
+    if not (ok and lemma_ok):
+        return None
+    # (a) positivity of the inner product, (b) instantiate the abstract lemma (propositional), (c) rewrite into the premise
+    a_pos = inst[5]
+    ok = rep.prove(f"dot-positive[{tag},row{ri}]", a_pos, [g_dot, A["facts"][2]], timeout_ms=30000, sample="rotated unit vector of mean_A has positive inner product with the rotated resultant")
+    ok = rep.prove(f"arctan2-facts[{tag},row{ri}]", z3.And(inst[0], inst[2], inst[3]), B["facts"][:3], timeout_ms=10000,
+                   sample="the unit vector of mean_B is the positive direction of the rotated resultant (arctan2 contract)") and ok
+    lem = z3.substitute(lconc, *sub)
+    bools = {}
+
+    def atom(t):  # opaque propositional abstraction of the instantiated lemma: the step is modus ponens
+        return bools.setdefault(t.get_id(), z3.Bool(f"ul_atom_{len(bools)}"))
+
+    ok = rep.prove(f"lemma-instance[{tag},row{ri}]", atom(lem), [z3.Implies(z3.And(*[atom(h) for h in inst]), atom(lem))] + [atom(h) for h in inst], timeout_ms=10000,
+                   sample="modus ponens on the instantiated unit-vector lemma (antecedents: side facts of arctan2 and the ring identities above)") and ok
+    ok = rep.prove(f"mean-rotates[{tag},row{ri}]", prem, [lem], timeout_ms=30000,
+                   sample="cos/sin of mean_pred_y(rotated configuration) == cos/sin of (mean_pred_y + c)  [=> congruent mod 2 pi]") and ok
+    return (concl, ident) if ok else None
+
+
+def _turn_hints(sc, rows, fa, fb, idents, rotate):
+    """definitional extensions N := (integer combination) that let z3's integer reasoning see that two residuals in (-pi, pi]
+    which differ by 2 pi N are equal (each N is a fresh integer *defined* by the equation: sound)"""
+    hints = []
+
+    def hint(name, ta, tb, K, ident):
+        ea, eb = sc.rc.by_id.get(ta.get_id()), sc.rc.by_id.get(tb.get_id())
+        if ea is None or eb is None or ta.get_id() == tb.get_id():
+            return
+        N = z3.Int(name)
+        hints.append(N == (K if K is not None else 0) - (ident if ident is not None else 0) - eb[1] + ea[1])
+
+    for ri, (i, j, kind) in enumerate(rows):
+        if not _ang(kind):
+            continue
+        ident = idents.get(ri) if rotate else None
+        cols = sc.columns(fb, i, j)
+        for col, (_v, k) in enumerate(cols):
+            ta, tb = _real_of(fa.sigma_y_res[ri, col]), _real_of(fb.sigma_y_res[ri, col])
+            hint(f"N_{ri}_{col}", ta, tb, k.t if k is not None else None, ident)
+        hint(f"N_{ri}_y", _real_of(fa.innovation[ri]), _real_of(fb.innovation[ri]), sc.obs[i]["ky"][j].t, ident)
+    return hints
+
+
+def _real_of(v):
+    return v.t if isinstance(v, SReal) else rv(v)
+
+
+def _in_range(v, lo_open, hi_closed):
+    t = _real_of(v)
+    return z3.And(t > lo_open, t <= hi_closed)
+
+
+# ---- O5: representation / seam invariance of update() ---------------------------------------------------
+def o5_shift(rep, cfg, rotate):
+    """update() on a configuration and on the same configuration reported in another representation:
+    every angular value (sigma-point predictions, measured value) + c (rotate) + 2 pi k (k per value, solver-chosen)"""
+    order = list(range(len(cfg["obs"])))
+
+    def run():
+        sc = Scene(cfg)
+        with UEnv(sc):
+            fa = sc.new_filter()
+            fa.predict(60.0)
+            fa.update([sc.observation(i) for i in order])
+            fb = sc.new_filter()
+            fb.predict(60.0)
+            fb.update([sc.observation(i, shifted=True, rotate=rotate) for i in order])
+        return sc, fa, fb
+
+    res = X.explore_lin(run, max_paths=64, branch_timeout_ms=10000)
+    rep.note(f"paths={len(res)}")
+    lemma_ok = True
+    if rotate:
+        _vars, lhyp, lconc = _unit_lemma()
+        lemma_ok = rep.prove("unit-lemma", lconc, lhyp, timeout_ms=30000, sample="two unit vectors that are positive multiples of one vector are equal (abstract, 6 reals)")
+    done = 0
+    for r in res:
+        if r.exc is not None:
+            rep.error("exception", repr(r.exc))
+            continue
+        sc, fa, fb = r.out
+        tag = _tag(r.path)
+        rows = sc.rows()
+        with resume(r.path):
+            for (i, j, kind) in rows:
+                if kind != "lin":
+                    sc.columns(fb, i, j)
+                    sc.columns(fa, i, j)
+            distinct = _distinct_columns(fa)
+            apins = sc.pins(fa, angles=True)
+        cons = r.path.constraints()
+        lin = X.linear_part(cons)
+        full = cons + sc.at.side_facts() + distinct
+        pins = sc.pins()
+        extra = {"rotate": rotate}
+        kw = dict(inputs=lambda m, sc=sc, fa=fa: sc.inputs(m, fa, extra), replay=replay_shift)
+        if rep.feasible(f"path[{tag}]", lin, timeout_ms=10000) is None:
+            continue
+        done += 1
+        if done == 1:  # second half of the vacuity guard: the non-linear constraints of the run (sqrt / cholesky contracts, domain conditions) at a generic prior
+            rep.reachable(f"nonlinear-constraints-satisfiable[{tag}]", [c_ for c_ in cons if not X.is_linear(c_)] + pins, timeout_ms=30000)
+        lemmas, idents = [], {}
+        for ri, (i, j, kind) in enumerate(rows):
+            if not _ang(kind):
+                continue
+            mA, mB = fa.mean_pred_y[ri], fb.mean_pred_y[ri]
+            lo, hi = _lowhigh(kind)
+            _two_step(rep, f"mean-range[{tag},row{ri}]", z3.And(mB.t >= rv(lo), mB.t < rv(hi), mA.t >= rv(lo), mA.t < rv(hi)), lin, full, pinned=lin + pins,
+                      sample="angular mean_pred_y inside the range of its angle type", **kw)
+            if rotate:
+                got = _rotation_lemma(rep, tag, ri, r.path, sc, mA, mB, sc.obs[i]["c"][j], lemma_ok, lin + apins, kw)
+                if got is None:
+                    continue
+                lemmas.append(got[0])
+                idents[ri] = got[1]
+            else:
+                _two_step(rep, f"mean-equal[{tag},row{ri}]", mA.t == mB.t, lin, full, pinned=lin + pins, sample="mean_pred_y unchanged by whole turns added to sigma-point angles", **kw)
+        with resume(r.path):
+            hints = _turn_hints(sc, rows, fa, fb, idents, rotate)
+        fast = lin + lemmas + hints
+        g_res = eq_arrays(fa.sigma_y_res, fb.sigma_y_res)
+        g_inn = eq_arrays(fa.innovation, fb.innovation)
+        ok1 = _two_step(rep, f"sigma_y_res-equal[{tag}]", g_res, fast, full + lemmas, pinned=fast + pins, sample="measurement sigma-point residuals unchanged by the change of representation", **kw)
+        ok2 = _two_step(rep, f"innovation-equal[{tag}]", g_inn, fast, full + lemmas, pinned=fast + pins, sample="innovation unchanged when the measured angle is y + c + 2 pi k", **kw)
+        rng = [_in_range(fb.innovation[ri], -PI, PI) for ri, (_i, _j, kind) in enumerate(rows) if _ang(kind)]
+        _two_step(rep, f"innovation-range[{tag}]", z3.And(*rng), lin, full, pinned=lin + pins, sample="angular innovation components in (-pi, pi]", **kw)
+        if ok1 and ok2:
+            hyp2 = [g_res, g_inn]
+            _two_step(rep, f"est_x-equal[{tag}]", eq_arrays(fa.est_x, fb.est_x), hyp2, full + lemmas + hyp2, pinned=cons + pins + lemmas + hyp2, sample="posterior mean unchanged", **kw)
+            _two_step(rep, f"est_p-equal[{tag}]", eq_arrays(fa.est_p, fb.est_p), hyp2, full + lemmas + hyp2, pinned=cons + pins + lemmas + hyp2, sample="posterior covariance unchanged", **kw)
+    if done == 0:
+        rep.error("reach", "no feasible path")
+    # vacuity guard: a seam-straddling configuration (sigma angles just below 2 pi and just above 0) is inside the domain of some path
+    seam = False
+    for r in res:
+        if r.exc is not None:
+            continue
+        sc, fa, fb = r.out
+        i, j, _k = next(x for x in sc.rows() if _ang(x[2]))
+        with resume(r.path):
+            cols = sc.columns(fa, i, j)
+        if cfg.get("const"):  # common angle exactly on the seam, reported with different turn counts
+            c = [cols[0][0].t == 0, sc.obs[i]["y"][j].t == TWOPI * 3] + [k.t == n_ for n_, (_v, k) in enumerate(sc.columns(fb, i, j)) if k is not None]
+        else:
+            c = [cols[0][0].t > TWOPI - rv(0.1), cols[0][0].t < TWOPI, cols[1][0].t > 0, cols[1][0].t < rv(0.1), sc.obs[i]["y"][j].t == TWOPI * 3]
+        if rep.feasible(f"seam-straddle[{_tag(r.path)}]", X.linear_part(r.path.constraints()) + c, timeout_ms=10000) not in (None, True):
+            seam = True
+            break
+    if not seam:
+        rep.error("reach-seam", "no path admits sigma angles on both sides of the 0/2pi seam")
+
+
+# ---- O5-spec: what update() publishes, against the definitions ------------------------------------------
+def o5_spec(rep, cfg):
+    """one update(): mean_pred_y is the weighted circular mean (direction of the weighted resultant, inside the range of the
+    angle type) resp. the weighted mean; sigma_y_res / innovation are the wrapped resp. plain differences; flags are right"""
+    order = list(range(len(cfg["obs"])))
+
+    def run():
+        sc = Scene(cfg)
+        with UEnv(sc):
+            f = sc.new_filter()
+            f.predict(60.0)
+            f.update([sc.observation(i) for i in order])
+        return sc, f
+
+    res = X.explore_lin(run, max_paths=64, branch_timeout_ms=10000)
+    rep.note(f"paths={len(res)}")
+    done = 0
+    for r in res:
+        if r.exc is not None:
+            rep.error("exception", repr(r.exc))
+            continue
+        sc, f = r.out
+        tag = _tag(r.path)
+        rows = sc.rows()
+        cons = r.path.constraints()
+        lin = X.linear_part(cons)
+        with resume(r.path):
+            colsets = {ri: sc.columns(f, i, j) for ri, (i, j, kind) in enumerate(rows) if kind != "lin"}
+            trigs = {ri: [trig(v.t) for v, _k in cs] for ri, cs in colsets.items() if _ang(rows[ri][2])}
+            mtrig = {ri: trig(f.mean_pred_y[ri].t) for ri in trigs}
+            distinct = _distinct_columns(f)
+            apins = sc.pins(f, angles=True)
+        full = cons + sc.at.side_facts() + distinct
+        pins = sc.pins()
+        kw = dict(inputs=lambda m, sc=sc, f=f: sc.inputs(m, f), replay=replay_spec)
+        if rep.feasible(f"path[{tag}]", lin, timeout_ms=10000) is None:
+            continue
+        done += 1
+        if done == 1:  # second half of the vacuity guard: the non-linear constraints of the run (sqrt / cholesky contracts, domain conditions) at a generic prior
+            rep.reachable(f"nonlinear-constraints-satisfiable[{tag}]", [c_ for c_ in cons if not X.is_linear(c_)] + pins, timeout_ms=30000)
+        w = f.mean_weight
+        y = np.concatenate([sc.obs[i]["y"] for i in order])
+        flags = [bool(b) for b in np.asarray(f.is_angular).tolist()]
+        if flags != [_ang(kind) for (_i, _j, kind) in rows]:
+            # the flags are concrete (they depend on the enum values only): confirm on the real code with any model of the path
+            mdl = rep.feasible(f"flags-model[{tag}]", lin + pins, timeout_ms=10000)
+            if mdl is None or mdl is True:
+                rep.error(f"is_angular[{tag}]", f"published flags {flags} differ from the components' angle types, but no model of the path was found for the replay")
+            else:
+                data = sc.inputs(mdl, f)
+                bad, detail = replay_spec(data)
+                if bad:
+                    rep.concrete_violation(f"is_angular[{tag}]", data, detail)
+                else:
+                    rep.error(f"is_angular[{tag}]", f"published flags {flags} differ symbolically but not in the replay: {detail}")
+        for ri, (i, j, kind) in enumerate(rows):
+            m = f.mean_pred_y[ri]
+            if not _ang(kind):
+                vals = sc.obs[i]["h"][j].dot(f.sigma_points) if kind == "lin" else np.array([v for v, _k in colsets[ri]], dtype=object)
+                g = z3.And(_real_of(m) == _real_of(vals.dot(w)), eq_arrays(f.sigma_y_res[ri], vals - m), _real_of(f.innovation[ri]) == _real_of(y[ri] - m))
+                _two_step(rep, f"plain-row[{tag},row{ri}]", g, [], full, pinned=lin + pins, sample="non-angular component: weighted mean, plain residuals, plain innovation", **kw)
+                continue
+            lo, hi = _lowhigh(kind)
+            _two_step(rep, f"mean-range[{tag},row{ri}]", z3.And(m.t >= rv(lo), m.t < rv(hi)), lin, full, pinned=lin + pins, sample="angular mean_pred_y in [low, high) of its angle type", **kw)
+            if cfg.get("const"):
+                _two_step(rep, f"mean-is-common-angle[{tag},row{ri}]", z3.IsInt((m.t - colsets[ri][0][0].t) / TWOPI), lin, full, pinned=lin + pins,
+                          sample="all sigma points see the same angle phi (any representation): mean_pred_y == phi (mod 2 pi)", **kw)
+            C = sum((w[col] * SReal(cs[0]) for col, cs in enumerate(trigs[ri])), SReal(0))
+            S = sum((w[col] * SReal(cs[1]) for col, cs in enumerate(trigs[ri])), SReal(0))
+            cm, sm = mtrig[ri]
+            call = _call_of(sc.at, m.t)
+            nondeg = z3.Or(C.t != 0, S.t != 0)
+            da = X.DivAbstraction(prefix=f"q{ri}")
+            goal = da.rewrite(z3.And(sm * C.t == cm * S.t, cm * C.t + sm * S.t > 0))
+            hyps = [da.rewrite(h) for h in (call["facts"][:3] if call else []) + [nondeg]]
+            # the normalisation of the weights is a positive factor: q = 1 / ||w||, ||w|| = sqrt(sum w^2) >= 0
+            for den, q in da.classes:
+                hyps += [q * den == 1] + [h for h in r.path.assumes if free_vars(h) <= free_vars(den)]
+            _two_step(rep, f"mean-direction[{tag},row{ri}]", goal, hyps, hyps + cons, pinned=hyps + lin + apins, fast_ms=10000, timeout_ms=10000, sample="mean_pred_y points along sum_j w_j (cos th_j, sin th_j): the weighted circular mean", **kw)
+            gs = []
+            for col, (v, _k) in enumerate(colsets[ri]):
+                rr = _real_of(f.sigma_y_res[ri, col])
+                gs += [rr > -PI, rr <= PI, z3.IsInt((rr - (v.t - m.t)) / TWOPI)]
+            nu = _real_of(f.innovation[ri])
+            gs += [nu > -PI, nu <= PI, z3.IsInt((nu - (_real_of(y[ri]) - m.t)) / TWOPI)]
+            _two_step(rep, f"wrapped-residuals[{tag},row{ri}]", z3.And(*gs), lin, full, pinned=lin + pins,
+                      sample="sigma_y_res[:, j] and innovation are in (-pi, pi] and congruent to (sigma angle - mean) resp. (measured - mean) mod 2 pi", **kw)
+    if done == 0:
+        rep.error("reach", "no feasible path")
+
+
+# ---- O6: order of stacked observations -------------------------------------------------------------------------------
+def o6_order(rep, cfg, perms):
+    nobs = len(cfg["obs"])
+    ident = list(range(nobs))
+
+    def run():
+        sc = Scene(cfg)
+        fs = []
+        with UEnv(sc):
+            for perm in [ident] + perms:
+                f = sc.new_filter()
+                f.predict(60.0)
+                f.update([sc.observation(i) for i in perm])
+                fs.append(f)
+        return sc, fs
+
+    res = X.explore_lin(run, max_paths=64, branch_timeout_ms=10000)
+    rep.note(f"paths={len(res)}")
+    done = 0
+    for r in res:
+        if r.exc is not None:
+            rep.error("exception", repr(r.exc))
+            continue
+        sc, fs = r.out
+        tag = _tag(r.path)
+        cons = r.path.constraints()
+        with resume(r.path):
+            distinct = _distinct_columns(fs[0])
+        full = cons + sc.at.side_facts() + distinct
+        pins = sc.pins()
+        if rep.feasible(f"path[{tag}]", X.linear_part(cons), timeout_ms=10000) is None:
+            continue
+        done += 1
+        if done == 1:  # second half of the vacuity guard: the non-linear constraints of the run (sqrt / cholesky contracts, domain conditions) at a generic prior
+            rep.reachable(f"nonlinear-constraints-satisfiable[{tag}]", [c_ for c_ in cons if not X.is_linear(c_)] + pins, timeout_ms=30000)
+        fa = fs[0]
+        rows_a = [(i, j) for (i, j, _k) in sc.rows(ident)]
+        for perm, fb in zip(perms, fs[1:]):
+            ptag = "".join(map(str, perm))
+            kw = dict(inputs=lambda m, sc=sc, fa=fa, perm=perm: sc.inputs(m, fa, {"perm": perm}), replay=replay_order)
+            rows_b = [(i, j) for (i, j, _k) in sc.rows(perm)]
+            rp = [rows_b.index(x) for x in rows_a]
+            g_inn = eq_arrays(fa.innovation, np.asarray(fb.innovation, dtype=object)[rp])
+            _two_step(rep, f"innovation-permuted[{tag},{ptag}]", g_inn, [], full, pinned=cons + pins, sample="innovation components follow their observations", **kw)
+            for nm in ("est_x", "est_p"):
+                A, B = np.asarray(getattr(fa, nm), dtype=object), np.asarray(getattr(fb, nm), dtype=object)
+                if sum(len(k) for k in cfg["obs"]) <= 2:
+                    _two_step(rep, f"{nm}-equal[{tag},{ptag}]", eq_arrays(A, B), [], full, pinned=cons + pins, fast_ms=60000, timeout_ms=60000,
+                              sample=f"{nm} independent of the order of the stacked observations (rational identity)", **kw)
+                    continue
+                # larger stacks: clear the (provably equal) determinants and decide entry by entry as polynomial identities
+                da = X.DivAbstraction(prefix="qd")
+                for idx in np.ndindex(*A.shape):
+                    g = _real_of(A[idx]) == _real_of(B[idx])
+                    lab = f"{nm}{list(idx)}-equal[{tag},{ptag}]"
+                    v = refute(da.rewrite(g), [], 300000)
+                    if v.status == "unsat":
+                        _record(rep, lab, v, f"{nm} entry independent of the order (polynomial identity after clearing the equal determinants)")
+                    else:
+                        rep.prove(lab, g, full, timeout_ms=120000, **kw)
+    if done == 0:
+        rep.error("reach", "no feasible path")
+
+
+# =======================================================================================
 REPLAYS = {"O1": replay_wrap, "O2": replay_residual, "O3": replay_vec, "O4": replay_mean, "O4b": replay_mean}
+
+
+def _cfg(n, tun, resample, obs, const=False):
+    return {"n": n, "tun": tun, "resample": resample, "obs": obs, "const": const}
+
+
+def _ukf_cases(tier):
+    """(suffix, cfg) for the single-observation obligations O5*; `const`: the angular measurement does not depend on the state (every sigma
+    point sees the same angle): there the mean is known exactly (mod 2pi), so range/seam violations have exact counterexamples"""
+    cases = [("n1-pos-a0", _cfg(1, "pos", False, [["a0"]])),
+             ("n1-neg-ap-lin-redraw", _cfg(1, "neg", True, [["ap", "lin"]])),
+             ("n2-neg-val-a0", _cfg(2, "neg", False, [["val", "a0"]])),
+             ("n1-pos-lin-ap-const", _cfg(1, "pos", False, [["lin", "ap"]], const=True))]
+    if tier == "thorough":
+        cases += [("n1-neg-a0-redraw", _cfg(1, "neg", True, [["a0"]])),
+                  ("n1-pos-a0-ap", _cfg(1, "pos", False, [["a0", "ap"]])),
+                  ("n2-pos-ap-redraw", _cfg(2, "pos", True, [["ap"]])),
+                  ("n2-pos-lin-a0-redraw", _cfg(2, "pos", True, [["lin", "a0"]])),
+                  ("n2-neg-a0-ap", _cfg(2, "neg", False, [["a0", "ap"]])),
+                  ("n2-neg-a0-val-const-redraw", _cfg(2, "neg", True, [["a0", "val"]], const=True))]
+    return cases
+
+
+def _order_cases(tier):
+    cases = [("n1-pos-a0+lin", _cfg(1, "pos", False, [["a0"], ["lin"]]), [[1, 0]]),
+             ("n2-neg-a0+ap-redraw", _cfg(2, "neg", True, [["a0"], ["ap"]]), [[1, 0]])]
+    if tier == "thorough":
+        cases += [("n2-pos-ap+lin", _cfg(2, "pos", False, [["ap"], ["lin"]]), [[1, 0]]),
+                  ("n1-neg-a0+ap+lin", _cfg(1, "neg", False, [["a0"], ["ap"], ["lin"]]), [[2, 1, 0], [1, 2, 0]]),
+                  ("n1-pos-lin+a0+ap-redraw", _cfg(1, "pos", True, [["lin"], ["a0"], ["ap"]]), [[1, 0, 2], [2, 0, 1]])]
+    return cases
 
 
 def obligations(tier):
@@ -332,10 +1220,26 @@ def obligations(tier):
         Ob("O4", lambda rep: o4_mean(rep, 2 if tier == "quick" else 3), "angularMean invariant under whole turns", 600),
         Ob("O4b", o4b_mean_wrappoint, "angularMean wrap points agree mod 2pi", 600),
     ]
-    try:
-        from harness import c16_ukf
-
-        obs += c16_ukf.obligations(tier)
-    except ImportError:
-        pass
+    big = 900 if tier == "thorough" else 300
+    for sfx, cfg in _ukf_cases(tier):
+        obs.append(Ob(f"O5-spec-{sfx}", (lambda c: lambda rep: o5_spec(rep, c))(cfg),
+                      "update(): mean_pred_y is the weighted circular mean in range, residuals/innovation wrapped into (-pi,pi] and congruent to the differences", big))
+        obs.append(Ob(f"O5-turns-{sfx}", (lambda c: lambda rep: o5_shift(rep, c, False))(cfg),
+                      "update(): adding whole turns to the measured angle and (independently) to every sigma-point angle leaves innovation, est_x, est_p unchanged", big))
+        REPLAYS[f"O5-spec-{sfx}"] = replay_spec
+        REPLAYS[f"O5-turns-{sfx}"] = replay_shift
+        if cfg["const"]:
+            continue  # a rotated constant field is covered by the general (state-dependent) fields
+        obs.append(Ob(f"O5-seam-{sfx}", (lambda c: lambda rep: o5_shift(rep, c, True))(cfg),
+                      "update(): rotating the configuration by any offset c (moving it onto / across / away from the wrap point) and re-wrapping every value independently "
+                      "leaves sigma_y_res, innovation, est_x, est_p unchanged; mean_pred_y moves by c mod 2pi", big))
+        REPLAYS[f"O5-seam-{sfx}"] = replay_shift
+    for sfx, cfg, perms in _order_cases(tier):
+        obs.append(Ob(f"O6-order-{sfx}", (lambda c, p: lambda rep: o6_order(rep, c, p))(cfg, perms),
+                      "update(): stacked observations in another order give the same est_x, est_p (innovation permuted)", 1500 if tier == "thorough" else 300))
+        REPLAYS[f"O6-order-{sfx}"] = replay_order
     return obs
+
+
+for _tier in ("quick", "thorough"):  # REPLAYS must be complete at import time (./check C16 --replay <file>)
+    obligations(_tier)
